@@ -484,6 +484,7 @@ Section OpDone.
     destruct (fstat_ok f iin st Efst) as (ndin & Endin & Est).
     destruct (out_name (c_decompress cf) op) as [q|] eqn:Eq; cbn [e_end]; try discriminate.
     pose proof (out_name_neq _ _ _ Eq) as Hqop.
+    destruct (c_force cf && output_init_checks_same_file && same_file f q st) eqn:Esf; cbn [e_end]; try discriminate.
     set (f1 := if c_force cf then fst (sys_unlink f q) else f).
     assert (I1 : forall j, ilook f1 j = ilook f j).
     { intro j. unfold f1. destruct (c_force cf); auto. apply unlink_ilook. }
@@ -624,6 +625,7 @@ Section Fold.
       intro H. inversion H. right. eauto.
     - destruct (out_name (c_decompress cf) op); cbn [e_end fatal_end].
       2:{ intro H. inversion H. right. eauto. }
+      destruct (c_force cf && output_init_checks_same_file && same_file f s st); cbn [e_end]; try discriminate.
       destruct (sys_creat_excl _ _ _ _ _ _) as [f2 [iout|e|]]; cbn [e_end]; try discriminate.
       destruct (eff_work codec cf iin (OFile iout) f2) as [f3 [tag|]]; cbn [e_end fatal_end].
       + intro H. inversion H. right. eauto.
